@@ -24,7 +24,9 @@ def gen_tied(rng, i):
     names = [n for sc in pl.scopes_of(mb) for n in sc.split(";") if n]
     cmds = []
     if rng.random() < 0.35:
-        pair = rng.choice([("drq8", "wo8"), ("wo8", "drq8"), ("drq4c", "wo4"), ("wo4", "drq4c")])
+        # (identical weight settings in two modes: one stored copy serves both; different settings: the recipe has to be refused)
+        pair = rng.choice([("drq8", "wo8"), ("wo8", "drq8"), ("drq4c", "wo4"), ("wo4", "drq4c"),
+                           ("drq8", "wo8a"), ("wo8a", "drq8"), ("wo8", "drq4"), ("drq4", "wo8"), ("drq8t", "wo8"), ("wo4a", "drq4c")])
         for j, n in enumerate(names):
             cmds.append({"k": "add", "regex": re.escape(n), "operation": "*", "cfg": pl.UNIFORM[pair[j % 2]], "alg": "min_max_uniform_quantize"})
         names = []
